@@ -285,6 +285,7 @@ type Job struct {
 	NoBuild bool              // only run the generator
 	NoVet   bool
 	Tag     string // free-form extra cache key
+	Tags    string // build tags
 }
 
 // Result of a job.
@@ -328,7 +329,7 @@ func (j *Job) key(e *Env) string {
 	for _, k := range names(j.Lib) {
 		enc.Encode([]string{"l", k, j.Lib[k]})
 	}
-	enc.Encode([]interface{}{j.Binary, j.NoBuild, j.NoVet, j.Tag, "v3"})
+	enc.Encode([]interface{}{j.Binary, j.NoBuild, j.NoVet, j.Tag, j.Tags, "v3"})
 	return hex.EncodeToString(h.Sum(nil))[:24]
 }
 
@@ -416,8 +417,13 @@ func (e *Env) ModuleFiles() (map[string]string, error) {
 
 // GenArgs is the generator command line for one invocation.
 func (j *Job) GenArgs(scratch, file string) []string {
+	return j.GenArgsTo(scratch, filepath.Join(scratch, j.Opts.OutDir()), file)
+}
+
+// GenArgsTo is GenArgs with an explicit output directory.
+func (j *Job) GenArgsTo(scratch, outDir, file string) []string {
 	o := j.Opts
-	args := []string{"--out", filepath.Join(scratch, o.OutDir()), "--pkg-prefix", o.Prefix()}
+	args := []string{"--out", outDir, "--pkg-prefix", o.Prefix()}
 	if o.NoZap {
 		args = append(args, "--no-zap")
 	}
@@ -441,6 +447,11 @@ func (j *Job) GenArgs(scratch, file string) []string {
 
 // Generate runs the generator into scratch (which must contain thrift/…).
 func (e *Env) Generate(j *Job, scratch string, extraEnv ...string) (ok bool, out string) {
+	return e.GenerateTo(j, scratch, filepath.Join(scratch, j.Opts.OutDir()), extraEnv...)
+}
+
+// GenerateTo runs the generator with an explicit output directory.
+func (e *Env) GenerateTo(j *Job, scratch, outDir string, extraEnv ...string) (ok bool, out string) {
 	if len(j.Order) == 0 {
 		return true, "" // nothing to generate: the job only compiles the given Go files
 	}
@@ -455,14 +466,14 @@ func (e *Env) Generate(j *Job, scratch string, extraEnv ...string) (ok bool, out
 	env = append(env, extraEnv...)
 	var sb strings.Builder
 	for _, f := range files {
-		o, err := runCmd(scratch, env, 120*time.Second, e.ThriftRW, j.GenArgs(scratch, f)...)
+		o, err := runCmd(scratch, env, 120*time.Second, e.ThriftRW, j.GenArgsTo(scratch, outDir, f)...)
 		sb.WriteString(o)
 		if err != nil {
 			fmt.Fprintf(&sb, "[thriftrw %s: %v]\n", f, err)
-			return false, strings.Replace(sb.String(), scratch, "$S", -1)
+			return false, strings.Replace(strings.Replace(sb.String(), outDir, "$O", -1), scratch, "$S", -1)
 		}
 	}
-	return true, strings.Replace(sb.String(), scratch, "$S", -1)
+	return true, strings.Replace(strings.Replace(sb.String(), outDir, "$O", -1), scratch, "$S", -1)
 }
 
 // Build generates, compiles and vets one job (or returns the cached result).
@@ -520,7 +531,11 @@ func (e *Env) Build(j *Job) *Result {
 		}
 	}
 	if r.GenOK && !j.NoBuild {
-		env := goEnv("GOFLAGS=-mod=mod")
+		flags := "GOFLAGS=-mod=mod"
+		if j.Tags != "" {
+			flags += " -tags=" + j.Tags
+		}
+		env := goEnv(flags)
 		out, err := runCmd(scratch, env, 10*time.Minute, "go", "build", "./...")
 		r.BuildOut = strings.Replace(out, scratch, "$S", -1)
 		r.BuildOK = err == nil
